@@ -1,6 +1,7 @@
 package main
 
 import (
+	"strings"
 	"verif/layera"
 	"verif/layerb"
 )
@@ -35,9 +36,17 @@ func runC12(opt *Options) int {
 		},
 	}
 	// Layer B leg: sibling methods with different values of an inheritable setting
+	sib := layerb.FamilySibling(opt.Thorough())
+	// siblings with different `enum` settings sharing an enum type (value obligations)
+	var enumSib []*layerb.Conv
+	for _, c := range layerb.FamilyEnum(false) {
+		if strings.Contains(c.ID, "enum/sibling_") || strings.Contains(c.ID, "enum/map_survives_rebuild") {
+			enumSib = append(enumSib, c)
+		}
+	}
 	lb := &lbRun{
 		Opt:        opt,
-		Convs:      layerb.FamilySibling(opt.Thorough()),
+		Convs:      sib,
 		Check:      layerb.CheckErrors,
 		Bounds:     lbBounds(opt),
 		Rule:       lbRule,
@@ -61,8 +70,12 @@ func runC12(opt *Options) int {
 	}
 	lb2.CaseBase = 200
 	lb2rc := lb2.finish(lb2.run(), "translation_validation", nil)
+	lb3 := &lbRun{Opt: opt, Convs: enumSib, Check: layerb.CheckValue, Bounds: lbBounds(opt), Rule: lbRule, Assume: lbAssume, NoEvidence: true, CaseBase: 300}
+	if rc3 := lb3.finish(lb3.run(), "translation_validation", nil); rc3 != 0 && lb2rc == 0 {
+		lb2rc = rc3
+	}
 	lr.CaseBase = 500
-	rc := lr.finish(lr.run(), map[string]interface{}{"layer_b_sibling_family": lb.LastCov, "layer_b_sibling_skipcopy_family": lb2.LastCov})
+	rc := lr.finish(lr.run(), map[string]interface{}{"layer_b_sibling_family": lb.LastCov, "layer_b_sibling_skipcopy_family": lb2.LastCov, "layer_b_sibling_enum_family": lb3.LastCov})
 	if rc == 0 && lbrc != 0 {
 		return lbrc
 	}
